@@ -717,3 +717,173 @@ _run_before_addmod = run
 def run(chk):       # noqa: F811
     _run_before_addmod(chk)
     rule_add_mod(chk, get_index(), chk.tier if hasattr(chk, 'tier') else 'quick')
+
+
+# ---------------------------------------------------------------------------------------------------------------
+# C12.unit-candidates: NumberWithUnitExtractor.extract as written (prefix / suffix unit search around every number, candidate
+# construction, _extract_separate_units, _filter_ambiguity, and for currencies _select_candidates) is interpreted on every short
+# text over {digit, unit character(s), blank}.  The number extractor and the two string matchers are stubs of the checker that
+# report the digit runs and the unit runs of the text; nothing of the repository runs.  Required: the returned candidates are
+# pairwise disjoint, lie inside the text and carry the slice they address.
+
+UNITCAND_CONTROL = '''
+def extract(self, source):
+    out = []
+    for number in self.config.unit_num_extractor.extract(source):
+        for m in self.suffix_matcher.find(source):
+            if m.start == number.start + number.length:
+                er = ExtractResult()
+                er.start = number.start
+                er.length = number.length + m.length
+                er.text = source[er.start:er.start + er.length]
+                out.append(er)
+        for m in self.prefix_matcher.find(source):
+            if m.end == number.start:
+                er = ExtractResult()
+                er.start = m.start
+                er.length = number.length + m.length
+                er.text = source[er.start:er.start + er.length]
+                out.append(er)
+    return out
+'''
+
+
+def _char_runs(text, ch):
+    out, i = [], 0
+    while i < len(text):
+        if text[i] == ch:
+            j = i
+            while j < len(text) and text[j] == ch:
+                j += 1
+            out.append((i, j))
+            i = j
+        else:
+            i += 1
+    return out
+
+
+def unitcand_run(idx, cls, fn, owner, source, prefix_chars, suffix_chars, er_cls, mr_cls, cur_type):
+    never = {'finditer': native(lambda it, a, k: []), 'search': native(lambda it, a, k: None), 'match': native(lambda it, a, k: None)}
+
+    def mk_never():
+        return Native(dict(never), 'pattern<never>')
+    hooks = dict(_regex_hooks())
+    hooks['RegExpUtility.get_safe_reg_exp'] = lambda it, a, k: mk_never()
+    it = Interp(idx, hooks=hooks, where='%s.extract' % cls.name, budget=3_000_000)
+
+    def finder(chars):
+        def find(it2, a, k):
+            src, out = a[0], []
+            for ch in chars:
+                for s, e in _char_runs(src, ch):
+                    o = it2.instantiate(mr_cls, [s, e - s], {}, None)
+                    o.attrs['_MatchResult__text'] = src[s:e]
+                    out.append(o)
+            return out
+        return Native({'find': native(find)}, 'matcher')
+
+    def num_extract(it2, a, k):
+        src, out = a[0], []
+        for s, e in _char_runs(src, '1'):
+            o = Obj(er_cls, {})
+            o.attrs.update({'start': s, 'length': e - s, 'text': src[s:e], 'type': 'number', 'data': None, 'meta_data': None})
+            out.append(o)
+        return out
+    cfg = Native({'extract_type': cur_type, 'unit_num_extractor': Native({'extract': native(num_extract)}, 'number extractor'),
+                  'ambiguous_unit_number_multiplier_regex': None, 'connector_token': '', 'non_unit_regex': mk_never(),
+                  'ambiguity_filters_dict': None, 'dimension_ambiguity_filters_dict': None,
+                  'expand_half_suffix': native(lambda it2, a, k: None)}, 'config')
+    M = '_NumberWithUnitExtractor__'
+    selfo = Obj(cls, {'config': cfg, M + 'max_prefix_match_len': 3, M + 'prefix_matcher': finder(prefix_chars),
+                      M + 'suffix_matcher': finder(suffix_chars), M + 'separate_regex': mk_never()})
+    if owner is None:
+        out = it.call_function(FuncRef(cls.mod, fn, None), [selfo, source], {})
+    else:
+        out = it.call_function(FuncRef(cls.mod, fn, owner), [source], {}, None, selfobj=selfo)
+    res = []
+    for o in out:
+        s, l, t = o.attrs.get('start'), o.attrs.get('length'), o.attrs.get('text')
+        if not isinstance(s, int) or not isinstance(l, int) or not isinstance(t, str):
+            raise AnalysisError('%s.extract returns a candidate without integer start/length and str text' % cls.name)
+        res.append((s, s + l - 1, t))
+    return res
+
+
+def unitcand_verdicts(source, res):
+    """[(kind, what)]"""
+    out = []
+    for (s, e, t) in res:
+        if s < 0 or e >= len(source) or e < s:
+            out.append(('outside', 'candidate [%d,%d] outside the text' % (s, e)))
+        elif t != source[s:e + 1]:
+            out.append(('text', 'candidate [%d,%d] has text %r, its span addresses %r' % (s, e, t, source[s:e + 1])))
+    for i in range(len(res)):
+        for j in range(i + 1, len(res)):
+            a, b = res[i], res[j]
+            if overlap((a[0], a[1]), (b[0], b[1])):
+                lo, hi = max(a[0], b[0]), min(a[1], b[1])
+                shared = source[lo:hi + 1]
+                cls_ = 'a one-character unit' if len(shared) == 1 and shared not in '1 ' else \
+                    'a number' if '1' in shared else 'a unit of several characters'
+                out.append(('overlap on ' + cls_, 'candidates %r [%d,%d] and %r [%d,%d] share %r'
+                            % (a[2], a[0], a[1], b[2], b[0], b[1], shared)))
+    return out
+
+
+def rule_unit_candidates(chk, idx, tier):
+    rid = 'C12.unit-candidates'
+    chk.rule(rid, 'the unit candidates NumberWithUnitExtractor.extract returns for a currency text are pairwise disjoint, inside '
+                  'the text and carry the slice they address', floor=4, control=True)
+    cls = idx.cls('recognizers_number_with_unit.number_with_unit.extractors.NumberWithUnitExtractor')
+    er_cls = idx.cls('recognizers_text.extractor.ExtractResult')
+    mr_cls = idx.cls('recognizers_text.matcher.match_result.MatchResult')
+    consts = idx.cls('recognizers_number_with_unit.number_with_unit.constants.Constants')
+    if cls is None or mr_cls is None or consts is None or 'extract' not in cls.methods:
+        raise AnalysisError('anchor vanished: NumberWithUnitExtractor.extract / MatchResult / Constants')
+    cur = consts.attrs.get('SYS_UNIT_CURRENCY')
+    if not (isinstance(cur, ast.Constant) and isinstance(cur.value, str)):
+        raise AnalysisError('anchor vanished: Constants.SYS_UNIT_CURRENCY')
+    chk.consulted(cls.mod.path)
+    fn = cls.methods['extract']
+    # (alphabet, longest text, characters found by the prefix matcher, by the suffix matcher)
+    plans = [('1$ ', 7, '$', '$')] if tier == 'quick' else [('1$ ', 8, '$', '$'), ('1ps ', 6, 'p', 's'), ('1$s ', 6, '$', '$s')]
+    first, runs = {}, 0
+    for alphabet, maxlen, pre, suf in plans:
+        for n in range(1, maxlen + 1):
+            for tup in itertools.product(alphabet, repeat=n):
+                s = ''.join(tup)
+                if s[0] == ' ' or s[-1] == ' ' or '  ' in s or '1' not in s or not (set(s) & set(pre + suf)):
+                    continue
+                runs += 1
+                try:
+                    res = unitcand_run(idx, cls, fn, cls, s, pre, suf, er_cls, mr_cls, cur.value)
+                    vs = unitcand_verdicts(s, res)
+                except PyExc as ex:
+                    vs = [('raises', str(ex))]
+                for kind, what in vs:
+                    if kind not in first or len(s) < len(first[kind][0]):
+                        first[kind] = (s, what)
+    for kind in ['raises', 'outside', 'text', 'overlap on a one-character unit', 'overlap on a unit of several characters',
+                 'overlap on a number']:
+        bad = first.get(kind)
+        chk.judge(bad is None, rid, cls.mod.path, 'NumberWithUnitExtractor.extract [%s]' % kind, 'never' if bad is None else 'happens',
+                  None if bad is None else
+                  'NumberWithUnitExtractor.extract (currency): on the text %r (1 = digit, other characters = unit words found by the '
+                  'prefix / suffix matchers): %s' % bad, fn.lineno)
+    chk.observe('C12.unit-candidates: NumberWithUnitExtractor.extract interpreted on %d texts (%s)'
+                % (runs, '; '.join('%r up to %d characters' % (a, m) for a, m, _, _ in plans)))
+    ctl = ast.parse(UNITCAND_CONTROL).body[0]
+    try:
+        res = unitcand_run(idx, cls, ctl, None, '1$1', '$', '$', er_cls, mr_cls, cur.value)
+        v = unitcand_verdicts('1$1', res)
+    except PyExc:
+        v = []
+    chk.control(rid, any(k == 'overlap on a one-character unit' for k, _ in v))
+
+
+_run_before_unitcand = run
+
+
+def run(chk):       # noqa: F811
+    _run_before_unitcand(chk)
+    rule_unit_candidates(chk, get_index(), chk.tier if hasattr(chk, 'tier') else 'quick')
